@@ -616,6 +616,47 @@ func (m *Machine) intrinsic(fn *ssa.Function, args []Val) (Val, bool) {
 			m.locked--
 		}
 		return nil, true
+	case "(*sync.Map).Load", "(*sync.Map).Store", "(*sync.Map).LoadOrStore", "(*sync.Map).Delete":
+		// sync.Map as an association list attached to the variable's location;
+		// its accesses are synchronised, so they are not shared writes (C19)
+		loc := args[0].(Ptr).loc
+		if m.syncMaps == nil {
+			m.syncMaps = map[*Val]*MapV{}
+		}
+		mv := m.syncMaps[loc]
+		if mv == nil {
+			mv = &MapV{}
+			m.syncMaps[loc] = mv
+		}
+		idx := m.mapFind(mv, args[1])
+		switch name {
+		case "(*sync.Map).Load":
+			if idx >= 0 {
+				return Tuple{copyVal(mv.vals[idx]), cBool(true)}, true
+			}
+			return Tuple{nil, cBool(false)}, true
+		case "(*sync.Map).Store":
+			if idx >= 0 {
+				mv.vals[idx] = copyVal(args[2])
+			} else {
+				mv.keys = append(mv.keys, args[1])
+				mv.vals = append(mv.vals, copyVal(args[2]))
+			}
+			return nil, true
+		case "(*sync.Map).LoadOrStore":
+			if idx >= 0 {
+				return Tuple{copyVal(mv.vals[idx]), cBool(true)}, true
+			}
+			mv.keys = append(mv.keys, args[1])
+			mv.vals = append(mv.vals, copyVal(args[2]))
+			return Tuple{copyVal(args[2]), cBool(false)}, true
+		default:
+			if idx >= 0 {
+				mv.keys = append(mv.keys[:idx:idx], mv.keys[idx+1:]...)
+				mv.vals = append(mv.vals[:idx:idx], mv.vals[idx+1:]...)
+			}
+			return nil, true
+		}
 	case "unicode/utf8.RuneCountInString", "unicode/utf8.RuneCount":
 		arr, off, n := m.byteCells(args[0])
 		if n > 0 && arr.hasSym(off, n) {
